@@ -78,6 +78,19 @@ def codec_part(spec, acc):
         except Exception:
             acc.add("generator_build_failed")
             continue
+        if c >= 0 and rnd.random() < 0.08:
+            # first a message the encoder must refuse half-way (PossDup / SequenceReset without a number): whatever it did
+            # to the shared codec must not leak into the next frame, which is encoded right below
+            bad = rnd.choice([lambda: FIXMessage("D", {11: "refused", 43: "Y", 58: "y" * rnd.randrange(1, 60)}), lambda: FIXMessage("4", {36: 5, 123: "Y"})])()
+            n_before = sess.next_num_out
+            try:
+                codec.encode(bad, sess)
+                acc.violation("incomplete-retransmission-encoded", "a PossDup / SequenceReset without MsgSeqNum was encoded", witness, cid)
+            except Exception as e:
+                acc.oracle("codec-refusal")
+                acc.addmap("codec_refusals", "forced:" + type(e).__name__)
+                if sess.next_num_out != n_before:
+                    acc.violation("refusal-consumed-a-number", f"counter {n_before} -> {sess.next_num_out}", witness, cid)
         try:
             wire = codec.encode(msg, sess).encode("utf-8")
         except Exception as e:
@@ -131,12 +144,18 @@ async def history(rnd, acc, clock, cid):
         for step in range(rnd.randrange(4, 22)):
             if ep.connection_state <= ConnectionState.DISCONNECTED_BROKEN_CONN:
                 break
-            a = rnd.choice(["send", "send", "send_uni", "send_grp", "testreq", "app_in", "gap", "resend_req", "seqreset", "hb_bad",
+            a = rnd.choice(["send", "send", "send_uni", "send_grp", "send_big", "send_refused", "testreq", "app_in", "gap", "resend_req", "seqreset", "hb_bad",
                             "advance", "advance", "logout_in", "toolow", "disconnect_logout", "send_hb", "send_decl"])
             trace.append(a)
             cnt += 1
-            if a in ("send", "send_uni", "send_grp", "send_hb", "send_decl"):
-                if a == "send":
+            if a in ("send", "send_uni", "send_grp", "send_hb", "send_decl", "send_big", "send_refused"):
+                if a == "send_big":
+                    # a frame larger than any buffer size a sender might slice by: every write() must still be whole frames
+                    m = FIXMessage("B", {148: f"big{cnt}", 58: "x" * rnd.choice([4090, 4200, 9000, 20000])})
+                elif a == "send_refused":
+                    # the encoder refuses these after it has started building the frame; the NEXT frame must be unaffected
+                    m = rnd.choice([lambda: FIXMessage("D", {11: f"r{cnt}", 43: "Y"}), lambda: FIXMessage("4", {36: 99, 123: "Y"})])()
+                elif a == "send":
                     m = FIXMessage("D", {11: f"c{cnt}", 58: msggen.rvalue(rnd, "ascii", 20) or "x"})
                 elif a == "send_uni":
                     m = FIXMessage("D", {11: f"u{cnt}", 58: "café " + msggen.rvalue(rnd, "uni", 8)})
